@@ -129,6 +129,10 @@ def run_scenarios(ctx, scenarios, procs=None, timeout=1500, rerun_skipped=True, 
             shutil.rmtree(os.path.join(d, "wfrepo"), ignore_errors=True)
         if p.returncode != 0 or not last.startswith("scenarios="):
             ctx.save_debug(type("R", (), {"out": out})(), "coresim_shard%d.txt" % idx)
+            crash = vlib.repo_panic(out)
+            if crash:     # the core itself panicked under these scenarios
+                raise vlib.RepoCrash(crash[0], crash[1], [binp, "-mode", "run", "-work", d + "_replay", "-scenarios", scn, "-trace",
+                                                          trc + ".replay"], out)
             raise vlib.Inconclusive("coresim shard %d failed rc=%d: %s" % (idx, p.returncode, vlib.tail(out, 12)))
         skipped = json.loads(last.split("skipped=")[1])
         lines = ctx.read_ndjson(trc) if os.path.exists(trc) else []
